@@ -240,11 +240,33 @@ def observer_completeness(ctx, lc, cls, rule="R12.a"):
             )
     init = repo.method(cls, "__init__")
     if pristine and init is not None:
+        # the binding the constructed object ends up with: a later unconditional statement of the written-out
+        # constructor that rebinds the same attribute (`super().__init__()` running initialize_features, which
+        # takes its own copy) overrides an earlier one
+        try:
+            init_top = list(ctx.norm.flat(init, depth=3).node.body)
+        except AnalysisError:
+            init_top = []
+
+        def _overridden(w):
+            txt = ast.unparse(w.event.node)
+            at = next((i for i, st in enumerate(init_top) if any(isinstance(x, ast.stmt) and ast.unparse(x) == txt for x in ast.walk(st))), None)
+            if at is None:
+                return False
+            for st in init_top[at + 1:]:
+                if isinstance(st, ast.Assign) and len(st.targets) == 1 and isinstance(st.targets[0], ast.Attribute) \
+                        and isinstance(st.targets[0].value, ast.Name) and st.targets[0].value.id == "self" and st.targets[0].attr == w.attr \
+                        and ast.unparse(st.value) != ast.unparse(getattr(w.event.node, "value", st.value)):
+                    return True
+            return False
+
         for w in lc.attr_writes(init, cls):
             if w.kind != "rebind" or w.attr not in inplace or w.attr in pristine:
                 continue
             val = getattr(w.event.node, "value", None)
             if val is None:
+                continue
+            if _overridden(w):
                 continue
             for o in ctx.flow.origins(w.fi, val, cls):
                 if o[0] == "attr" and o[1] == w.fi.params[0] and o[2] and o[2][0] in pristine:
@@ -703,9 +725,43 @@ def dispatcher_reset(ctx, lc, disp, rule):
         and not (isinstance(x, (ast.Assign, ast.AnnAssign)) and _same_home(x.value) and stored_params.get(t.attr) == stored_params.get(x.value.attr))
     }
     _base_norm = norm_init
+    # a private copy of a constructor value (`self._a = list(x)`), never re-assigned and never
+    # modified in place: a fresh copy of it (`list(self._a)`) equals a fresh copy of the value itself
+    copy_homes = {}
+    top = list(getattr(init_f.node, "body", []))
+    for i_, st_ in enumerate(top):
+        if not (isinstance(st_, ast.Assign) and len(st_.targets) == 1):
+            continue
+        t_, v_ = st_.targets[0], st_.value
+        if not (isinstance(t_, ast.Attribute) and ast.unparse(t_.value) == "self" and t_.attr.startswith("_") and t_.attr not in reassigned):
+            continue
+        if not (isinstance(v_, ast.Call) and isinstance(v_.func, ast.Name) and v_.func.id in ("list", "tuple")
+                and len(v_.args) == 1 and not v_.keywords and isinstance(v_.args[0], ast.Name)):
+            continue
+        x_ = v_.args[0].id
+        if any(isinstance(n_, ast.Name) and n_.id == x_ and isinstance(n_.ctx, ast.Store) for s2 in top[i_ + 1:] for n_ in ast.walk(s2)):
+            continue
+        pat_ = r"(?<![A-Za-z0-9_.])self\." + _re.escape(t_.attr) + r"(?![A-Za-z0-9_])"
+        touched = False
+        for m0_ in list(disp.methods.values()) + list(disp.setters.values()):
+            if isinstance(m0_.node, ast.Lambda):
+                continue
+            for n_ in ast.walk(m0_.node):
+                if isinstance(n_, (ast.Subscript, ast.Attribute)) and isinstance(n_.ctx, (ast.Store, ast.Del)) and n_ is not t_ \
+                        and _re.search(pat_, ast.unparse(n_.value)):
+                    touched = True
+                elif isinstance(n_, ast.AugAssign) and _re.search(pat_, ast.unparse(n_.target)):
+                    touched = True
+                elif isinstance(n_, ast.Call) and isinstance(n_.func, ast.Attribute) and _re.fullmatch(pat_, ast.unparse(n_.func.value)) \
+                        and n_.func.attr not in ("copy", "index", "count"):
+                    touched = True
+        if not touched:
+            copy_homes[t_.attr] = (v_.func.id, x_)
 
     def norm_init(s, _b=_base_norm):  # noqa: F811
         s = _b(s)
+        for attr_, (fn_, x_) in copy_homes.items():
+            s = _re.sub(r"(?<![A-Za-z0-9_.])(list|tuple)\(self\." + _re.escape(attr_) + r"\)", lambda m: f"{m.group(1)}({x_})", s)
         for attr_, par_ in stored_params.items():
             if attr_ not in reassigned:
                 s = _re.sub(r"(?<![A-Za-z0-9_.])self\." + _re.escape(attr_) + r"(?![A-Za-z0-9_])", par_, s)
